@@ -126,6 +126,11 @@ CopyAssignA(o) == Two /\ ICopyAssign(o)
 MoveConstructA(o) == Two /\ IMoveConstruct(o)
 MoveAssignA(o) == Two /\ IMoveAssign(o)
 DestroyA(o) == Two /\ IDestroy(o)
+\* overwrite with a copy of the element that is being overwritten: the slot keeps its value, the head moves
+PushBackOfFrontA(o) == /\ Mut(o) /\ PushBackOfFront(o) /\ UNCHANGED <<icap, size, slots>> /\ victims' = {}
+                       /\ pos' = [pos EXCEPT ![o] = ModCap(o, pos[o] + 1)]
+PushFrontOfBackA(o) == /\ Mut(o) /\ PushFrontOfBack(o) /\ UNCHANGED <<icap, size, slots>> /\ victims' = {}
+                       /\ pos' = [pos EXCEPT ![o] = ModCap(o, pos[o] - 1)]
 \* self-assignment is guarded: nothing is touched, nothing is destroyed
 ILayoutKept == UNCHANGED <<pos, size, icap, slots>> /\ victims' = {}
 SelfCopyAssignA(o) == Mut(o) /\ SelfCopyAssign(o) /\ ILayoutKept
@@ -133,7 +138,7 @@ SelfMoveAssignA(o) == Mut(o) /\ SelfMoveAssign(o) /\ ILayoutKept
 Next == \E o \in Objs : \/ PushBackA(o) \/ PushFrontA(o) \/ PopBackA(o) \/ PopFrontA(o)
                         \/ \E n \in 1..MaxCap : ResizeA(o, n)
                         \/ CopyConstructA(o) \/ CopyAssignA(o) \/ MoveConstructA(o) \/ MoveAssignA(o) \/ DestroyA(o)
-                        \/ SelfCopyAssignA(o) \/ SelfMoveAssignA(o)
+                        \/ SelfCopyAssignA(o) \/ SelfMoveAssignA(o) \/ PushBackOfFrontA(o) \/ PushFrontOfBackA(o)
 Spec == Init /\ [][Next]_vars
 
 (* ---- what TLC checks ---- *)
